@@ -283,9 +283,10 @@ class GateMonitor(Monitor):
     """Every path to an accept point must have taken an edge establishing `pred` (pattern, want)
     since the last redefinition of a kill variable."""
 
-    def __init__(self, accept_pts, pred, want=None, kill_ids=(), est_elem=None, accept_edge=None):
+    def __init__(self, accept_pts, pred, want=None, kill_ids=(), est_elem=None, accept_edge=None, check_exit=False):
         self.accept = set(accept_pts)
         self.accept_edge = accept_edge
+        self.check_exit = check_exit
         # pred: a pattern with `want`, or a list of alternatives [(pattern, want), ...]
         if pred is None:
             self.alts = []
@@ -313,6 +314,11 @@ class GateMonitor(Monitor):
         if self.est_elem is not None and self.est_elem(pt, e):
             return True
         return m
+
+    def exit(self, m, bid, s):
+        if self.check_exit and not m:
+            return Viol("function exit reached without %s" % self.pred_str())
+        return None
 
     def pred_str(self):
         return getattr(self, "label", None) or str(self.pred)
